@@ -43,6 +43,8 @@ def kwargs_of(rec, sg=1.0):
     if cl["iv"]:
         ts = rec["ts"]
         kw["interval"] = ((ts + (cl["iv"] // 100) / 2.0) * sg, (ts + (cl["iv"] % 100) / 2.0) * sg)
+    if rec.get("_ivseq"):
+        kw["interval"] = [(a * sg, b * sg) for a, b in rec["_ivseq"]]
     if fn == "dir_matrix":
         kw["normalize"] = bool(cl["norm"])
     return kw
@@ -236,7 +238,8 @@ def chk_multi_abs(rec, be):
             m["advisory"] = True
             out.append(m)
         return 1, out
-    for sg in rec.get("_sigmas", (1.0, 2.0 ** -10)):
+    # the third unit (2^-40) puts neighbouring grid times closer together than any absolute tolerance down to 1e-12
+    for sg in rec.get("_sigmas", (1.0, 2.0 ** -10, 2.0 ** -40)):
         sts = trains_of(rec, sg)
         snap = snapshot(sts)
         ident = rec["call"]["idx"] == list(range(1, len(rec["tr"]) + 1))
@@ -275,6 +278,29 @@ def chk_multi_forms(rec, be):
         elif not equal_results(base[1], got):
             out.append(_mm(sub, "%s %s: form '%s' gives %s, form '%s' gives %s" % (
                 sub, hdr(rec), base[0], rstr(base[1]), form, rstr(got))))
+    # an averaging interval may be a sequence of intervals: every call form averages over the same pieces
+    # (the pieces reach both edges of the recording, so that only the gap in the middle is left out)
+    fn = rec["call"]["fn"]
+    if fn in ("isi_distance", "spike_distance", "sync", "order") and not rec["call"]["iv"] and "_ivseq" not in rec:
+        ts, te = rec["ts"], rec["te"]
+        q = (te - ts) / 4.0
+        for seq in ([(ts, ts + q), (te - q, te)], [(te - q, te), (ts, ts + q)], [(ts + q / 2, ts + q), (ts + 2 * q, te - q / 2)]):
+            r2 = dict(rec, _ivseq=seq)
+            base = None
+            for form in forms_for(rec):
+                st, r = call(invoke, r2, sts, form)
+                n += 1
+                if st != "ok":
+                    got = ("raise", r.split(":")[0])
+                else:
+                    got = norm_result(rec, r)
+                if base is None:
+                    base = (form, got)
+                elif (base[1][0] == "raise") != (got[0] == "raise") or (got[0] != "raise" and not equal_results(base[1], got)):
+                    out.append(_mm("%s[%s,%s]" % (API[fn], be, form), "%s[%s] %s interval=%s: form '%s' gives %s, form '%s' gives %s" % (
+                        API[fn], be, hdr(rec), seq, base[0], rstr(base[1]) if base[1][0] != "raise" else base[1],
+                        form, rstr(got) if got[0] != "raise" else got)))
+                    break
     return n, out
 
 
@@ -323,7 +349,7 @@ def chk_multi_avg(rec, be):
     out = []
     n = 0
     fn = rec["call"]["fn"]
-    variants = [(1.0, None), (2.0 ** 10, None)]
+    variants = [(1.0, None), (2.0 ** 10, None), (2.0 ** -40, None)]
     if fr(rec["mrts"]) == 0:
         variants.append((1.0, "auto"))       # the same identity with the automatic threshold
     for sg, mode in variants:
@@ -428,6 +454,55 @@ def chk_filter_rel(rec, be):
                 if not set(kept[k].spikes) <= set(prev[k].spikes):
                     out.append(_mm(sub, "%s %s: raising the threshold to %g keeps more spikes of train %d" % (sub, hdr(rec), th, k)))
         prev = kept
+    if not unchanged(sts, snap):
+        out.append(_mm(sub, "%s %s: the filter modified its input trains" % (sub, hdr(rec))))
+        return n, out
+
+    def same_trains(u, v):
+        return len(u) == len(v) and all(list(x.spikes) == list(y.spikes) and x.t_start == y.t_start and x.t_end == y.t_end
+                                        for x, y in zip(u, v))
+    # MRTS='auto' is one threshold for the whole list (the one the multivariate profile uses)
+    kwa = dict(kw, MRTS="auto")
+    sta, pa = call(lambda: pyspike.spike_sync_profile(sts, **kwa))
+    stt, thr_auto = call(lambda: pyspike.isi_lengths.default_thresh(sts))
+    for th in (0.0, 0.5):
+        st, r = call(lambda: pyspike.filter_by_spike_sync(sts, th, **kwa))
+        n += 1
+        if st != "ok" or sta != "ok" or stt != "ok":
+            if st != sta:
+                out.append(_mm(sub, "%s %s thr=%g MRTS='auto': filter %s, profile %s" % (sub, hdr(rec), th, r if st != "ok" else "ok", pa if sta != "ok" else "ok")))
+            break
+        st2, r2 = call(lambda: pyspike.filter_by_spike_sync(sts, th, **dict(kw, MRTS=thr_auto)))
+        if st2 != "ok" or not same_trains(r, r2):
+            out.append(_mm(sub, "%s %s thr=%g: filter(MRTS='auto') keeps %s, filter(MRTS=default_thresh(list)=%r) keeps %s" % (
+                sub, hdr(rec), th, [fl(s.spikes) for s in r], thr_auto, [fl(s.spikes) for s in r2] if st2 == "ok" else r2)))
+            break
+        for k in range(N):
+            for t in sts[k].spikes:
+                if any(t in sts[j].spikes for j in range(N) if j != k):
+                    continue
+                i = [m for m in range(1, len(pa.x) - 1) if pa.x[m] == t]
+                if len(i) == 1:
+                    val = pa.y[i[0]] / pa.mp[i[0]]
+                    if abs(val - th) > 1e-9 and (t in r[k].spikes) != (val > th):
+                        out.append(_mm(sub, "%s %s thr=%g MRTS='auto': spike %g of train %d has profile value %g but kept=%s" % (
+                            sub, hdr(rec), th, t, k, val, t in r[k].spikes)))
+    # a list may hold the same object twice: the result depends on the spike times, not on object identity
+    if N >= 2:
+        for kwx in (dict(kw), dict(kw, Reconcile=False)):
+            al = [sts[0]] + list(sts)
+            cp = [sts[0].copy()] + list(sts)
+            for th in (0.0, 0.25, 0.5):
+                a = call(lambda: pyspike.filter_by_spike_sync(al, th, **kwx))
+                b = call(lambda: pyspike.filter_by_spike_sync(cp, th, **kwx))
+                n += 1
+                if a[0] != b[0] or (a[0] == "ok" and not same_trains(a[1], b[1])):
+                    out.append(_mm(sub, "%s %s thr=%g %s: the list [t0, t0, t1, ..] with ONE object in both places gives %s, "
+                                        "with a copy in the second place %s" % (
+                                            sub, hdr(rec), th, "Reconcile=False" if "Reconcile" in kwx else "",
+                                            [fl(s.spikes) for s in a[1]] if a[0] == "ok" else a[1],
+                                            [fl(s.spikes) for s in b[1]] if b[0] == "ok" else b[1])))
+                    break
     if not unchanged(sts, snap):
         out.append(_mm(sub, "%s %s: the filter modified its input trains" % (sub, hdr(rec))))
     return n, out
@@ -566,6 +641,21 @@ def chk_reconcile(rec, be):
         if st != "ok" or any(not np.array_equal(u.spikes, v.spikes) or u.t_start != v.t_start or u.t_end != v.t_end
                              for u, v in zip(r1, rb)):
             out.append(_mm(sub, "%s %s: reconcile_spike_trains_bi differs from the list version" % (sub, hdrs)))
+    # what reconcile returns are ordinary trains: used later, together with trains that come from ANOTHER
+    # reconcile call (another common interval), they behave like fresh trains with the same content
+    if len(inp) >= 2:
+        wide = [pyspike.SpikeTrain(np.array(s.spikes, float), [s.t_start - 2 * sg, s.t_end + 3 * sg], is_sorted=False) for s in inp]
+        sa, ra = call(pyspike.spikes.reconcile_spike_trains, inp)
+        sb, rb = call(pyspike.spikes.reconcile_spike_trains, wide)
+        if sa == "ok" and sb == "ok":
+            u, v = ra[0], rb[-1]
+            fu = pyspike.SpikeTrain(np.array(u.spikes, float), [u.t_start, u.t_end])
+            fv = pyspike.SpikeTrain(np.array(v.spikes, float), [v.t_start, v.t_end])
+            for name, f in BI_MEASURES:
+                n += 1
+                a = _outcome(lambda: f(u, v, dict()))
+                b = _outcome(lambda: f(fu, fv, dict()))
+                _cmp_outcomes(out, "%s[%s] on trains returned by two reconcile calls" % (name, be), hdrs, a, b, sg)
     # every measure: messy input == clean input (the spec's normal form) with Reconcile=False; inputs untouched
     clean = [pyspike.SpikeTrain(e[0].copy(), [e[1], e[2]]) for e in exp]
     kws = [dict(), dict(MRTS="auto")] if not rec.get("_unit") else [dict()]
@@ -699,6 +789,29 @@ def chk_multi_wf(rec, be):
             pb = wf_problem(kind, r, ts, te)
             if pb:
                 out.append(_mm(sub, "%s %s: %s" % (sub, hdr(rec), pb)))
+    # spikes within rounding of an edge (as produced by np.cumsum / np.arange: 0.9999999999999999 for an end of 1.0)
+    # are inside the recording like any other: first train's last spike one ulp before t_end, second train's
+    # first spike one ulp after t_start
+    hug = []
+    for k, s_ in enumerate(sts):
+        sp = np.array(s_.spikes, float)
+        if k == 0 and len(sp) and sp[-1] < te:
+            sp[-1] = np.nextafter(te, ts)
+        if k == 1 and len(sp) and sp[0] > ts and (len(sp) == 1 or sp[1] > np.nextafter(ts, te)):
+            sp[0] = np.nextafter(ts, te)
+        hug.append(pyspike.SpikeTrain(sp, [ts, te]))
+    if any(not np.array_equal(h_.spikes, s_.spikes) for h_, s_ in zip(hug, sts)):
+        for form in [f for f in forms_for(rec) if f in ("idx", "sub", "bi")]:
+            st, r = call(invoke, rec, hug, form)
+            n += 1
+            sub = "%s[%s,%s,spikes one ulp inside the edges]" % (API[fn], be, form)
+            htxt = "trains=%s on [%g,%g] %s" % ([[repr(float(v)) for v in h_.spikes] for h_ in hug], ts, te, hdr(rec))
+            if st != "ok":
+                out.append(_mm(sub, "%s %s raised %s" % (sub, htxt, r)))
+                continue
+            pb = wf_problem(norm_result(rec, r)[0], r, ts, te)
+            if pb:
+                out.append(_mm(sub, "%s %s: %s" % (sub, htxt, pb)))
     # the bivariate-only entry points on every ordered pair of the list (once per list: on the first profile call)
     if fn == "isi_profile" and ident:
         kw = kwargs_of(dict(rec, call=dict(rec["call"], fn="dir_matrix", norm=True)))
